@@ -21,17 +21,39 @@ class RGen:
         self.krylov = krylov  # only base nodes below Prod/Kron/BDiag, all of them PSD
         self.wrap = True      # lazy Transpose / Adjoint wrappers around base nodes
         self.wrap_p = 0.17
+        self.extreme = False  # payload scales so extreme that determinants (and products of LU / Cholesky pivots) leave the dtype's range
         self.wide = False     # wide data regime: payload scales 1e-8..1e8, dense nodes with graded spectra (cond 1e3..1e8)
 
     def val(self, cplx):
         r = self.r
-        sc = 10.0 ** r.randint(-8, 8) if (self.wide and r.random() < 0.7) else 1
+        sc = 10.0 ** r.randint(-8, 8) if (self.wide and not self.extreme and r.random() < 0.7) else 1
         if not cplx:
             return [r.choice(REAL_VALS) * sc, 0]
         while True:
             a, b = r.choice(REAL_VALS + [0, 0]), r.choice(REAL_VALS + [0, 0, 0])
             if a or b:
                 return [a * sc, b * sc]
+
+    def xscale(self, dt):
+        """10^(+-e): float32 24..36 decades, float64 165..290 decades (entries stay normal numbers; products of >= 2 of them do not)"""
+        r = self.r
+        e = r.randint(24, 33) if dt in ("float32", "complex64") else r.randint(165, 290)
+        return 10.0 ** (e * r.choice([-1, 1]))
+
+    def xs(self, t):
+        """rescale the payload of a leaf recipe in the extreme regime"""
+        if not self.extreme or t.get("k") not in ("Dense", "Tri", "Diag", "Scal") or "dt" not in t or t.get("graded") or t.get("tiny") or t.get("xscale"):
+            return t
+        sc = self.xscale(t["dt"])
+        f = (lambda v: [float(np.float32(v[0] * sc)), float(np.float32(v[1] * sc))]) if t["dt"] in ("float32", "complex64") else (lambda v: [v[0] * sc, v[1] * sc])
+        if t["k"] in ("Dense", "Tri"):
+            t["a"] = [[f(v) for v in row] for row in t["a"]]
+        elif t["k"] == "Diag":
+            t["d"] = [f(v) for v in t["d"]]
+        else:
+            t["c"] = f(t["c"])
+        t["xscale"] = sc
+        return t
 
     def dt(self, cplx):
         return self.r.choice(DT_CPLX if cplx else DT_REAL)
@@ -166,14 +188,14 @@ class RGen:
             self.wrap = False
             try:
                 if self.krylov or r.random() < 0.6:
-                    inner = self.base0(n, cplx)
+                    inner = self.xs(self.base0(n, cplx))
                 else:
                     inner = self.tree(1, n, cplx)   # a structured operator (Kronecker, BlockDiag, Product, Diagonal, ...) behind the wrapper
             finally:
                 self.wrap = True
             return dict(k="Wrap", w=r.choice(["H", "H", "T"]), via=r.choice(["ctor", "ctor", "attr"]), a=inner,
                         psd=bool(inner.get("psd")) and inner["k"] in ("Dense", "Lazy"))
-        return self.base0(n, cplx)
+        return self.xs(self.base0(n, cplx))
 
     def base0(self, n, cplx):
         r = self.r
@@ -212,13 +234,13 @@ class RGen:
             lower = r.random() < 0.5
             a = [[(self.val(cplx) if i == j else ([r.randint(-3, 3), r.randint(-2, 2) if cplx else 0])) if ((j <= i) if lower else (j >= i)) else [0, 0]
                   for j in range(n)] for i in range(n)]
-            return dict(k="Tri", dt=dt, a=a, lower=lower)
+            return self.xs(dict(k="Tri", dt=dt, a=a, lower=lower))
         if k == "Diag":
-            return dict(k="Diag", dt=dt, d=[self.val(cplx) for _ in range(n)])
+            return self.xs(dict(k="Diag", dt=dt, d=[self.val(cplx) for _ in range(n)]))
         if k == "Ident":
             return dict(k="Ident", dt=dt, n=n)
         if k == "Scal":
-            return dict(k="Scal", dt=dt, c=self.val(cplx), n=n)
+            return self.xs(dict(k="Scal", dt=dt, c=self.val(cplx), n=n))
         if k == "Perm":
             p = list(range(n))
             r.shuffle(p)
@@ -622,7 +644,10 @@ def base_dec(A, alg, need):
     which = need(psd, n)
     dec = dict(psd=psd, which=which, n=n)
     with np.errstate(all="ignore"):
-        dec["cond"] = float(np.linalg.cond(D.astype(np.complex128))) if n else 1.0
+        try:
+            dec["cond"] = float(np.linalg.cond(D.astype(np.complex128))) if n else 1.0
+        except np.linalg.LinAlgError:
+            dec["cond"] = float("nan")
     if which == "lu":
         p, L, U = sl.lu(D, p_indices=True)
         dec.update(p=[int(x) for x in p], L=L, U=U, resid=float(min(np.abs(L @ U - D[p]).max(), np.abs((L @ U)[p] - D).max())))
